@@ -3,6 +3,8 @@
 Seeded changes (produced by sub-agents that saw only a property's text and their own worktree).
 
   tools/seeded.py import <ID> [<src dir>]     copy patch.diff / demo.py / NOTES.md into seeded/<ID>/
+  tools/seeded.py runtree <ID> <tree> <CHECK>...   same as run, but against an already patched scratch tree (VERIF_REPO=<tree>)
+                                              instead of patching /repo (for use while something else reads /repo)
   tools/seeded.py run <ID> <CHECK>...         confirm the demonstration on both trees, apply the patch to /repo,
                                               run the named checks (quick tier), revert, update seeded/<ID>/meta.json
 
@@ -47,18 +49,25 @@ def main(argv):
                 shutil.copy(src / name, d / name)
         print('imported', sorted(p.name for p in d.iterdir()))
         return 0
-    if cmd != 'run':
+    if cmd not in ('run', 'runtree'):
         print(__doc__)
         return 2
+    tree = None
+    if cmd == 'runtree':
+        tree = argv[2]
+        argv = argv[:2] + argv[3:]
     checks = argv[2:]
     meta_path = d / 'meta.json'
     meta = json.loads(meta_path.read_text()) if meta_path.exists() else {'property': pid}
-    if sh(['git', '-C', REPO, 'status', '--porcelain']).stdout.strip():
+    if tree is None and sh(['git', '-C', REPO, 'status', '--porcelain']).stdout.strip():
         print('/repo is not clean; refusing')
         return 2
     meta['demo_on_original'] = demo_rc(d, REPO)
     results = {}
-    applied = sh(['git', '-C', REPO, 'apply', '--whitespace=nowarn', str(d / 'patch.diff')])
+    if tree is not None:
+        applied = sh(['true'])
+    else:
+        applied = sh(['git', '-C', REPO, 'apply', '--whitespace=nowarn', str(d / 'patch.diff')])
     if applied.returncode != 0:
         # the patch was made against an older HEAD: try a 3-way apply
         applied = sh(['git', '-C', REPO, 'apply', '--3way', '--whitespace=nowarn', str(d / 'patch.diff')])
@@ -70,8 +79,8 @@ def main(argv):
         return 2
     try:
         meta['applies'] = True
-        meta['files'] = sh(['git', '-C', REPO, 'diff', '--stat']).stdout.strip().splitlines()[:-1]
-        meta['demo_on_patched'] = demo_rc(d, REPO)
+        meta['files'] = sh(['git', '-C', tree or REPO, 'diff', '--stat']).stdout.strip().splitlines()[:-1]
+        meta['demo_on_patched'] = demo_rc(d, tree or REPO)
         for chk in checks:
             ev = ROOT / 'evidence' / f'{chk}.json'
             saved_ev = ev.read_bytes() if ev.exists() else None
@@ -81,7 +90,8 @@ def main(argv):
                 shutil.copytree(rp, keep / chk)
             t0 = time.time()
             try:
-                r = sh([str(ROOT / 'check'), chk, 'quick'], cwd=str(ROOT))
+                env = dict(os.environ, VERIF_REPO=tree) if tree else None
+                r = sh([str(ROOT / 'check'), chk, 'quick'], cwd=str(ROOT), env=env)
             finally:
                 if saved_ev is not None:
                     ev.write_bytes(saved_ev)
@@ -95,10 +105,11 @@ def main(argv):
             results[chk] = {'fired': fired, 'rc': r.returncode, 'seconds': round(time.time() - t0), 'summary': last, 'first_witness': first}
             print(f'{pid} patched: {chk} rc={r.returncode} fired={fired} :: {last}')
     finally:
-        sh(['git', '-C', REPO, 'checkout', '--', '.'])
-        # a 3-way apply may leave index entries
-        sh(['git', '-C', REPO, 'reset', '-q'])
-        sh(['git', '-C', REPO, 'checkout', '--', '.'])
+        if tree is None:
+            sh(['git', '-C', REPO, 'checkout', '--', '.'])
+            # a 3-way apply may leave index entries
+            sh(['git', '-C', REPO, 'reset', '-q'])
+            sh(['git', '-C', REPO, 'checkout', '--', '.'])
     meta.setdefault('checks', {}).update(results)
     meta['caught_by'] = ', '.join(sorted(c for c, v in meta['checks'].items() if v['fired'])) or 'NOT CAUGHT'
     meta_path.write_text(json.dumps(meta, indent=1))
